@@ -119,3 +119,53 @@ impl<'a, 'b> vstd::std_specs::ops::SubSpecImpl<&'b U256> for &'a U256 {
 }
 impl<'a, 'b> core::ops::Sub<&'b U256> for &'a U256 { type Output = U256; #[verifier::external_body] fn sub(self, rhs: &'b U256) -> U256 { unimplemented!() } }
 // ===== end U256 shim =====
+// ----- further numext operators (same convention: `* +` panic on overflow, `-` on underflow, `/` on zero) -----
+impl vstd::std_specs::ops::MulAssignSpecImpl<u64> for U256 {
+    open spec fn obeys_mul_assign_spec() -> bool { true }
+    open spec fn mul_assign_req(&self, rhs: u64) -> bool { self@ * (rhs as nat) < pow256() }
+    open spec fn mul_assign_spec(&self, rhs: u64) -> &U256 { &u256_of(self@ * (rhs as nat)) }
+}
+impl core::ops::MulAssign<u64> for U256 { #[verifier::external_body] fn mul_assign(&mut self, rhs: u64) { unimplemented!() } }
+impl<'b> vstd::std_specs::ops::AddAssignSpecImpl<&'b U256> for U256 {
+    open spec fn obeys_add_assign_spec() -> bool { true }
+    open spec fn add_assign_req(&self, rhs: &'b U256) -> bool { self@ + rhs@ < pow256() }
+    open spec fn add_assign_spec(&self, rhs: &'b U256) -> &U256 { &u256_of(self@ + rhs@) }
+}
+impl<'b> core::ops::AddAssign<&'b U256> for U256 { #[verifier::external_body] fn add_assign(&mut self, rhs: &'b U256) { unimplemented!() } }
+impl vstd::std_specs::ops::AddAssignSpecImpl<U256> for U256 {
+    open spec fn obeys_add_assign_spec() -> bool { true }
+    open spec fn add_assign_req(&self, rhs: U256) -> bool { self@ + rhs@ < pow256() }
+    open spec fn add_assign_spec(&self, rhs: U256) -> &U256 { &u256_of(self@ + rhs@) }
+}
+impl core::ops::AddAssign<U256> for U256 { #[verifier::external_body] fn add_assign(&mut self, rhs: U256) { unimplemented!() } }
+impl<'a, 'b> vstd::std_specs::ops::MulSpecImpl<&'b U256> for &'a U256 {
+    open spec fn obeys_mul_spec() -> bool { true }
+    open spec fn mul_req(self, rhs: &'b U256) -> bool { self@ * rhs@ < pow256() }
+    open spec fn mul_spec(self, rhs: &'b U256) -> U256 { u256_of(self@ * rhs@) }
+}
+impl<'a, 'b> core::ops::Mul<&'b U256> for &'a U256 { type Output = U256; #[verifier::external_body] fn mul(self, rhs: &'b U256) -> U256 { unimplemented!() } }
+impl vstd::std_specs::ops::MulSpecImpl<U256> for U256 {
+    open spec fn obeys_mul_spec() -> bool { true }
+    open spec fn mul_req(self, rhs: U256) -> bool { self@ * rhs@ < pow256() }
+    open spec fn mul_spec(self, rhs: U256) -> U256 { u256_of(self@ * rhs@) }
+}
+impl core::ops::Mul<U256> for U256 { type Output = U256; #[verifier::external_body] fn mul(self, rhs: U256) -> U256 { unimplemented!() } }
+impl vstd::std_specs::ops::SubSpecImpl<U256> for U256 {
+    open spec fn obeys_sub_spec() -> bool { true }
+    open spec fn sub_req(self, rhs: U256) -> bool { self@ >= rhs@ }
+    open spec fn sub_spec(self, rhs: U256) -> U256 { u256_of((self@ - rhs@) as nat) }
+}
+impl core::ops::Sub<U256> for U256 { type Output = U256; #[verifier::external_body] fn sub(self, rhs: U256) -> U256 { unimplemented!() } }
+impl vstd::std_specs::ops::DivSpecImpl<u64> for U256 {
+    open spec fn obeys_div_spec() -> bool { true }
+    open spec fn div_req(self, rhs: u64) -> bool { rhs != 0 }
+    open spec fn div_spec(self, rhs: u64) -> U256 { u256_div_u64(self, rhs) }
+}
+impl core::ops::Div<u64> for U256 { type Output = U256; #[verifier::external_body] fn div(self, rhs: u64) -> U256 { unimplemented!() } }
+impl<'a> vstd::std_specs::ops::DivSpecImpl<u64> for &'a U256 {
+    open spec fn obeys_div_spec() -> bool { true }
+    open spec fn div_req(self, rhs: u64) -> bool { rhs != 0 }
+    open spec fn div_spec(self, rhs: u64) -> U256 { u256_div_u64(*self, rhs) }
+}
+impl<'a> core::ops::Div<u64> for &'a U256 { type Output = U256; #[verifier::external_body] fn div(self, rhs: u64) -> U256 { unimplemented!() } }
+// ===== end further operators =====
